@@ -566,6 +566,31 @@ pub fn run(tier: &str) -> Result<Report, String> {
                         continue;
                     }
                     specs.push(format!("{regs}; $a: {fa}; $b: {fb}; $c: {fc}"));
+                    // the same dynamics with the regulations DECLARED as they are (sign and observability of every essential
+                    // input; no edge for an inessential one): regulatory graphs with and without negative / positive feedback
+                    // loops of length 1..3 - what an implementation may conclude from the signs is an input too
+                    if tier != "quick" || (ia + 3 * ib + 5 * ic) % 4 == 0 {
+                        let n = ["a", "b", "c"];
+                        let edges = |i: usize, k: usize| -> String {
+                            let (x, y) = match i {
+                                0 => (n[1], n[2]),
+                                1 => (n[0], n[2]),
+                                _ => (n[0], n[1]),
+                            };
+                            let v = n[i];
+                            match k {
+                                0 => String::new(),
+                                1 => format!("{x} -> {v}; "),
+                                2 => format!("{y} -> {v}; "),
+                                3 => format!("{x} -| {v}; "),
+                                4 => format!("{x} -> {v}; {y} -| {v}; "),
+                                5 => format!("{y} -> {v}; {x} -| {v}; "),
+                                6 => format!("{x} -> {v}; {y} -> {v}; "),
+                                _ => format!("{v} -> {v}; "),
+                            }
+                        };
+                        specs.push(format!("{}{}{}$a: {fa}; $b: {fb}; $c: {fc}", edges(0, ia), edges(1, ib), edges(2, ic)));
+                    }
                 }
             }
         }
@@ -674,6 +699,6 @@ pub fn run(tier: &str) -> Result<Report, String> {
     rep.distinct_nontrivial = rep.extra.get("law_instances_tiny").and_then(|v| v.as_u64()).unwrap_or(0) + big_total;
     rep.set("laws", json!(all.iter().map(|l| format!("{}: {} {} {}", l.name, l.lhs, if l.rel == Rel::Eq { "=" } else { "⊆" }, l.rhs)).collect::<Vec<_>>()));
     rep.sample(json!({"law": "AU fixed point", "network": "con2", "p": [5, 9], "q": [2, 0], "meaning": "per-colour state masks of the wild-card sets; both sides evaluated by the tool and compared as sets"}));
-    rep.rule = format!("{} laws (fixed-point equations, dualities in both directions - a negation directly above every temporal operator -, excluded middle for the until operators, inclusions, monotonicity in every argument, steady states as self-loops) + 3 graph-library laws (EF = reach_backward, AG = trap_forward, EU = reach_bwd in the restricted graph), each instantiated with wild-card arguments (also: every one-argument law and the library laws on every one of the 256 state sets of 512 (quick: 128) three-variable networks built from a menu of 8 update functions per variable; on the tiny networks every law x first-argument set also with both sides submitted as one batch, in both orders, to model_check_multiple_extended_formulae_dirty; compositionality: for every ordered pair (A, B) of 20 operator applications over the same arguments the single formula `A & B` must be the intersection of A and B evaluated on their own, and the batch [A, B] must return both - all (p, q) on networks with <= 16 sets, a spread of q otherwise (thorough): on the tiny networks {which:?} with EVERY coloured set as p (all pairs (p,q) when the network has <= 16 sets, or <= 256 in the thorough tier; otherwise q from a spread of 16, r from a spread of 4), anchored by the explicit-state oracle; on the bundled models {models:?} with a declared family (literals, conjunctions/disjunctions of two literals over the first 4 variables, each also cut by each half of the colour space, empty, unit, results of two formulae). distinct_nontrivial = number of law instances (distinct (law, argument tuple, network))", all.len());
+    rep.rule = format!("{} laws (fixed-point equations, dualities in both directions - a negation directly above every temporal operator -, excluded middle for the until operators, inclusions, monotonicity in every argument, steady states as self-loops) + 3 graph-library laws (EF = reach_backward, AG = trap_forward, EU = reach_bwd in the restricted graph), each instantiated with wild-card arguments (also: every one-argument law and the library laws on every one of the 256 state sets of 512 (quick: 128) three-variable networks built from a menu of 8 update functions per variable (regulations unsigned, and the same dynamics with sign and observability of every essential input declared); on the tiny networks every law x first-argument set also with both sides submitted as one batch, in both orders, to model_check_multiple_extended_formulae_dirty; compositionality: for every ordered pair (A, B) of 20 operator applications over the same arguments the single formula `A & B` must be the intersection of A and B evaluated on their own, and the batch [A, B] must return both - all (p, q) on networks with <= 16 sets, a spread of q otherwise (thorough): on the tiny networks {which:?} with EVERY coloured set as p (all pairs (p,q) when the network has <= 16 sets, or <= 256 in the thorough tier; otherwise q from a spread of 16, r from a spread of 4), anchored by the explicit-state oracle; on the bundled models {models:?} with a declared family (literals, conjunctions/disjunctions of two literals over the first 4 variables, each also cut by each half of the colour space, empty, unit, results of two formulae). distinct_nontrivial = number of law instances (distinct (law, argument tuple, network))", all.len());
     Ok(rep)
 }
